@@ -339,6 +339,8 @@ def check_C05(ex, sub=None):
                     return out
     if ex.result is not None:
         x = ex.result.x
-        if (x < um.xl).any() or (x > um.xu).any():
+        if np.shape(x) != um.xl.shape:
+            out.append(V(P, "result-outside-bounds", "returned x has shape %s, the problem has %d variables (not a point of the user's problem)" % (np.shape(x), um.n), sub, {}))
+        elif (x < um.xl).any() or (x > um.xu).any():
             out.append(V(P, "result-outside-bounds", "returned x violates the variable bounds", sub, {}))
     return out
